@@ -183,11 +183,11 @@ func (p *parser) on_parser_qualif(assoc Token, _ Token, prec Token, _ Token) *as
 
 	var err error
 	q.Precedence, err = strconv.Atoi(string(prec.Str))
-	if err != nil {
-		panic(err)
-	}
-	if q.Precedence <= 0 {
-		panic("not-reached")
+	if err != nil || q.Precedence <= 0 {
+		p.errs.Errorf(
+			prec.Pos,
+			"invalid precedence %s: it must be a positive integer", prec.Str)
+		q.Precedence = 1
 	}
 
 	return q
